@@ -89,6 +89,7 @@ func c16Events(values []int) []c16Event {
 		site string
 	}{
 		{"GET handler", hv.Req{Method: "GET", Path: "/x", Host: host}, "h"},
+		{"GET handler, client already gone", hv.Req{Method: "GET", Path: "/x", Host: host, Gone: true}, "h"},
 		{"POST handler", hv.Req{Method: "POST", Path: "/x", Host: host}, "h"},
 		{"HEAD via GET handler", hv.Req{Method: "HEAD", Path: "/x", Host: host}, "h"},
 		{"handler with params", hv.Req{Method: "GET", Path: "/u/9", Host: host}, "h"},
@@ -219,6 +220,20 @@ func c16System(kind string) (srv http.Handler, routerRec, groupRec string, rl, g
 		g.Use(hv.MW{Name: "G"})
 		router = g.New("r1", host, mux.WithRecovery(nil))
 		routerRec, groupRec = "none", "func"
+	case "group-none-sibling-rec":
+		// an earlier Group.New brought its own recovery option: that is the sibling's business only
+		g = newGroup(with()...)
+		g.Use(hv.MW{Name: "G"})
+		g.New("r0", mux.NewHosts(false, "other.com"), recOpt(&recLog{}))
+		router = g.New("r1", host)
+		routerRec, groupRec = "none", "none"
+	case "group-rec-sibling-nil":
+		g = newGroup(with(recOpt(gl))...)
+		g.Use(hv.MW{Name: "G"})
+		g.New("r0", mux.NewHosts(false, "other.com"), mux.WithRecovery(nil))
+		router = g.New("r1", host)
+		rl = gl
+		routerRec, groupRec = "func", "func"
 	case "group-rec-new-overrides":
 		g = newGroup(with(recOpt(gl))...)
 		g.Use(hv.MW{Name: "G"})
@@ -253,7 +268,7 @@ var c16Report bytes.Buffer
 // c16InterceptorPanic, when non-nil, makes the "boom" interceptor panic with that value.
 var c16InterceptorPanic any
 
-var c16Kinds = []string{"router-rec-then-nil", "group-rec-new-nil", "router-log", "router-slog", "router-write", "router-rec+lock", "group-rec-inherited+lock", "router-none+lock", "group-rec-new-extra-option", "router-none", "router-rec", "router-status", "group-none", "group-rec-inherited", "group-status-inherited", "group-rec-new-overrides", "group-rec-added-own", "group-none-added-rec", "group-rec-added-none"}
+var c16Kinds = []string{"group-none-sibling-rec", "group-rec-sibling-nil", "router-rec-then-nil", "group-rec-new-nil", "router-log", "router-slog", "router-write", "router-rec+lock", "group-rec-inherited+lock", "router-none+lock", "group-rec-new-extra-option", "router-none", "router-rec", "router-status", "group-none", "group-rec-inherited", "group-status-inherited", "group-rec-new-overrides", "group-rec-added-own", "group-none-added-rec", "group-rec-added-none"}
 
 func c16Job(raw json.RawMessage) (any, error) {
 	var it c16Item
